@@ -19,7 +19,7 @@ from vf import *
 
 LEVEL = "model_checking"
 META = {
-    "technique": "PlusCal/TLA+ model of the slot-map protocol checked by TLC over all interleavings (NoPanic, NeverWrong, FoundIfPresent; mutant self-test); TLC-enumerated lookup/maintenance sequences replayed with real git; threaded stress judged against the model's answers",
+    "technique": "PlusCal/TLA+ model of the slot-map protocol checked by TLC over all interleavings (NoPanic, NeverWrong, FoundIfPresent; mutant self-test); TLC-enumerated lookup/maintenance sequences replayed with real git; threaded stress judged against the model's answers; SlotMap.tla (slot allocation incl. stable handles and refusal) model-checked and bound by replaying TLC-simulated histories on the real store, comparing Store::structure()/metrics() after every lookup",
     "note": "Interleavings inside a lookup are covered by the model only; on the real code lookups are atomic steps (A) or free-running threads (B, sampled schedules). No cfg hooks were added for deterministic replay of intra-lookup schedules. SHA-1 recomputation stands for content exactness.",
 }
 
@@ -43,8 +43,88 @@ def template(ctx):
     return d, {"x": {"id": x}, "l": {"id": l}}
 
 
+def pack_pool(ctx, nfiles=4):
+    """pack files pack-f<k>.pack/.idx, k = 1 the one with the biggest index file (the store lists index files by size)"""
+    repo = os.path.join(ctx.work, "c12-poolrepo")
+    pool = os.path.join(ctx.work, "c12-pool")
+    os.makedirs(pool, exist_ok=True)
+    git(["init", "-q", "--bare", repo], check=True)
+    probe = {}
+    for k in range(1, nfiles + 1):
+        ids = []
+        for j in range(nfiles + 2 - k):
+            r = git(["hash-object", "-w", "--stdin"], cwd=repo, input=("pool file %d object %d\n" % (k, j)).encode(), check=True)
+            ids.append(r.stdout.decode().strip())
+        r = git(["pack-objects", "-q", os.path.join(pool, "tmp")], cwd=repo, input=("\n".join(ids) + "\n").encode(), check=True)
+        name = r.stdout.decode().strip()
+        for ext in ("pack", "idx"):
+            os.rename(os.path.join(pool, "tmp-%s.%s" % (name, ext)), os.path.join(pool, "pack-f%d.%s" % (k, ext)))
+        probe[str(k)] = ids[0]
+    sizes = [os.path.getsize(os.path.join(pool, "pack-f%d.idx" % k)) for k in range(1, nfiles + 1)]
+    if sorted(sizes, reverse=True) != sizes or len(set(sizes)) != len(sizes):
+        raise ToolError("pool index files are not strictly decreasing in size: %s" % sizes)
+    return pool, probe
+
+
+def run_slotmap(ctx, binary):
+    """the slot allocation: SlotMap.tla model-checked, SlotMap_Gen histories replayed (structure()/metrics() after every lookup)"""
+    fixes = {"Fix_KeepLive": "TRUE", "Fix_Precount": "TRUE"}
+    if os.environ.get("VERIF_C12_SKIPMC"):
+        pass
+    elif not ctx.thorough:
+        ctx.tlc_mc("odb", "SlotMap", consts=dict(fixes, NSlots=2, Files="{1, 2, 3}", AllowOverflow="TRUE"), workers=4, timeout=1200, coverage=False)
+    else:
+        ctx.tlc_mc("odb", "SlotMap", consts=dict(fixes, NSlots=3, Files="{1, 2, 3, 4}", AllowOverflow="TRUE"), workers=8, timeout=3000, coverage=False, xmx="12g")
+    pool, probe = pack_pool(ctx)
+    hist = ctx.tlc_gen("odb", "SlotMap_Gen", consts=dict(fixes, MaxSteps=24), workers=1, sim="num=%d" % (int(os.environ.get("VERIF_C12_NSIM", "150")) if not ctx.thorough else 2000), timeout=900)
+    for c in hist:
+        c.update({"op": "slotmap", "slots": 3, "pool": pool, "probe": probe})
+    res = ctx.harness(binary, hist, timeout=600, max_failures=3)
+    nlook = 0
+    for c, r in zip(hist, res):
+        ctx.nontrivial(json.dumps(c["steps"], sort_keys=True))
+        if "got" not in r:
+            if not r.get("skipped"):
+                ctx.violation({"kind": "slotmap", "case": c, "hang": "hang" in r, "what": "lookup did not return or the executor died: %s" % json.dumps(r)[:300]})
+            continue
+        disk = set()
+        for k, (s, g) in enumerate(zip(c["steps"], r["got"])):
+            if s["op"] == "add":
+                disk.add(s["f"])
+            elif s["op"] == "remove":
+                disk.discard(s["f"])
+            if s["op"] != "lookup":
+                continue
+            nlook += 1
+            bad = []
+            if "panic" in g or "error" in g:
+                bad.append("lookup panicked/failed: %s" % json.dumps(g)[:200])
+            else:
+                if g["found_missing"]:
+                    bad.append("an id that does not exist was found")
+                if g["ok"] != s["ok"]:
+                    bad.append("lookup %s, model: %s (%s)" % ("returned" if g["ok"] else "was refused", "returns" if s["ok"] else "refused", g["err"][:80]))
+                if not g["ok"] and g["err"] and "slotmap turned out to be too small" not in g["err"]:
+                    bad.append("unexpected error: %s" % g["err"][:120])
+                for key in ("order", "disposable", "unused", "kept"):
+                    if g[key] != s[key]:
+                        bad.append("%s: store shows %s, model %s" % (key, g[key], s[key]))
+                for pr in g["probes"]:
+                    if not pr.get("found") or not pr.get("exact"):
+                        bad.append("object of pack file %s (on disk) after a successful refresh: %s" % (pr["f"], json.dumps(pr)))
+            if bad:
+                ctx.violation({"kind": "slotmap", "case": c, "step": k, "observed": g, "expected": s, "mismatch": bad, "disk": sorted(disk),
+                               "what": "after step %d of %s" % (k, [(x["op"] + (str(x["f"]) if x["f"] else "")) for x in c["steps"][:k + 1]])})
+                break
+    ctx.cov["slotmap_histories"] = len(hist)
+    ctx.cov["slotmap_lookups_compared"] = nlook
+
+
 def run(ctx):
     binary = ctx.build("vh-c12")
+    if os.environ.get("VERIF_C12_ONLY") == "slotmap":
+        run_slotmap(ctx, binary)
+        return
     tdir, objects = template(ctx)
     env = {"VERIF_C12_TEMPLATE": tdir}
     # the design
@@ -128,6 +208,8 @@ def run(ctx):
                 break
     ctx.cov["histories"] = len(hist)
     ctx.cov["exhaustive"] = bool(ctx.thorough)
+    # the slot allocation itself
+    run_slotmap(ctx, binary)
     ctx.sample({"steps": [(s.get("env") or "%s.%s(%s)" % (s["h"], s["op"], s["obj"])) for s in cases[0]["steps"]]})
     # stress
     runs = [{"op": "stress", "threads": t, "millis": 2500 if not ctx.thorough else 20000, "seed": ctx.seed + i, "objects": objects, "slots": sl}
@@ -156,7 +238,12 @@ def run(ctx):
                        "repack -a -d, multi-pack-index write, prune-packed) replayed on a store with 3 slots, so slots of deleted packs are kept, "
                        "given up and reused; an explicit InsufficientSlots error is accepted only while more index files have to be held than "
                        "there are slots. Stress: %d runs. Non-trivial/distinct = each sequence with a maintenance step before a lookup, each "
-                       "history, each stress run." % (4 if not ctx.thorough else 5, len(hist), len(runs)))
+                       "history, each stress run. Slot allocation: SlotMap.tla (sequential transcription of consolidate_with_disk_state: slots, "
+                       "slot-map index, generations, stable handles, refusal) model-checked for EveryFileHasItsSlot, EverySlotLoadable, "
+                       "RefusedOnlyWhenFull, StableIdsStay, RefreshSettles, ReuseBumpsGeneration; %d SlotMap_Gen histories (pack files copied in "
+                       "and out of an object directory, stable handle opened/dropped, lookups of an absent id) replayed on a 3-slot store and "
+                       "compared after every lookup with Store::structure()/metrics() and lookups of one object per pack on disk."
+                       % (4 if not ctx.thorough else 5, len(hist), len(runs), ctx.cov.get("slotmap_histories", 0)))
 
 
 def replay(ctx, rec):
